@@ -664,6 +664,16 @@ def r6_depth(ck, F):
 
 
 # ---------------------------------------------------------------------------------------
+def _flush_guard_kind(g):
+    if "current_size_estimate" in g and "block_size" in g:
+        return "size"
+    if "BlockWriter::last_key(self.block_writer)" in g:
+        return "nonempty"
+    if "last_mut(" in g and "index_block_writers" in g:
+        return "parent"
+    return None
+
+
 def r8_pending_block(ck, F, R="C01-R8"):
     """a block that holds at least one entry is always flushed: `last_key()` is Some exactly when an
     entry was inserted since the last flush (getter is a pure projection, insert sets it on both
@@ -686,10 +696,13 @@ def r8_pending_block(ck, F, R="C01-R8"):
             guards = []
             for bb in success_guards(b, site):
                 e2 = b.expr_of_operand(b.term(bb)["discr"], Site(bb, None))
-                guards.append(e2.show()[:70])
-            want_max = 3 if path == A("writer_insert") else 2
-            ok = any("BlockWriter::last_key(self.block_writer)" in g for g in guards) and len(guards) <= want_max
-            ck.ob(R, f"flush-guard/{path.split('::')[-1]}", ok, f"data block flush is guarded by {guards}", b, site)
+                guards.append(e2.show())
+            # each guard is one of: the size test, "the block holds a key" (a match on / is_some of last_key()), "a
+            # parent index level exists"; testing the same fact twice (caller and helper) changes nothing
+            kinds = [_flush_guard_kind(g) for g in guards]
+            want = {"size", "nonempty", "parent"} if path == A("writer_insert") else {"nonempty", "parent"}
+            ok = "nonempty" in kinds and None not in kinds and set(kinds) <= want
+            ck.ob(R, f"flush-guard/{path.split('::')[-1]}", ok, f"data block flush is guarded by {[g[:70] for g in guards]}", b, site)
     # the backward scan enters the previous index block at its last entry (shared with C03-R5)
     r5_wrappers(ck, F, R)
     from .c03 import r3_reset
